@@ -1,5 +1,5 @@
 """What MANIFEST.json claims, per property (edited as the framework grows)."""
-FIX_COMMITS = ["4727107", "486f7ce", "d05ddbd", "f423e4b", "7fe0d0d", "5df9647", "d27b645", "987e38c"]
+FIX_COMMITS = ["4727107", "486f7ce", "d05ddbd", "f423e4b", "7fe0d0d", "5df9647", "d27b645", "987e38c", "2cef112"]
 
 ENGINE_NOTE = ("Trusted: Coq 8.16.1 kernel (vm_compute for table obligations; no axioms: every theorem is "
                "'Closed under the global context'); tools/translate.py (reflective dump of the live classes, "
@@ -34,4 +34,17 @@ CLAIMED["C08"] = dict(
     note=ENGINE_NOTE + " Which texts count as opener/END and parenthesis balance inside a statement are "
          "statement-level (leaf oracle); the latter is covered end-to-end and by the SplitLine laws (C02).",
     technique="Rocq proof (induction over engine model: K1 restore, K2 yield, K4 well-nestedness) + regenerated tables + correspondence + exhaustive single-edit search")
+CLAIMED["C02"] = dict(
+    design_ref="DESIGN.md 4 (C02), 3.1, 3.4",
+    text="Theorems: (a) for the regenerated tables and every leaf oracle, when the Main_Program0 fall-back is not "
+         "taken the leaves of the returned tree are exactly the reader's items in order (no statement or unit "
+         "dropped, duplicated, reordered); the fall-back path is refuted by a computed witness (finding F5); "
+         "(b) splitquote and splitparen are lossless for every line and quote state, lower=True only lower-cases "
+         "text outside literals. Tie: regenerated tables, engine correspondence, SplitLine model vs the Python on "
+         "1.5k/40k generated lines. Failing-input search: independent lexer/normaliser comparing "
+         "tokens(str(parse(layout(P)))) with tokens(P) over programs x layouts x comment settings.",
+    note=ENGINE_NOTE + " Partial: statement text -> str(statement) for non-expression statements and "
+         "string_replace_map/StringReplaceDict are not modelled; they are covered by the end-to-end token "
+         "comparison only. Exponent-letter case of real literals is treated as keyword case.",
+    technique="Rocq proof (engine K2 yield; splitquote/splitparen losslessness by induction) + regenerated tables + correspondence + independent-lexer token search")
 NOT_CLAIMED = {}
